@@ -668,14 +668,27 @@ def f1_exact(info):
 def f1_known(info):
     """F1 is only produced for phase_response != 50; the same plan signature with LINEAR phase is not the known finding and is
     measured like any other plan (a crash of the child process is then reported as such)."""
-    return f1_exact(info) and info["q"]["phase"] != 50
+    return f1_exact(info) and info["q"]["phase"] != 50 and _f1_listed_known()
+
+
+_F1_KNOWN = None
+
+
+def _f1_listed_known():
+    """F1 was repaired in /repo (279ce1a) and is listed as `fixed`: nothing is set aside any more, such configurations are ordinary
+    ones and must pass.  The set-aside path only comes back if an F1 entry for C01 / C02 / C12 is listed as `known` again."""
+    global _F1_KNOWN
+    if _F1_KNOWN is None:
+        _F1_KNOWN = any(f["id"] == "F1" for pid in ("C01", "C02", "C12") for f in common.known_active(pid))
+    return _F1_KNOWN
 
 
 def fph1_signature(info):
-    """Known finding F-PH1 (known_findings.d/phase.json): precision >= 28, 0 < min(phase, 100-phase) <= 25, a dft stage
-    with fewer than 256 taps."""
+    """Known finding F-PH1 (known_findings.d/phase.json; signal.json for C01 / C02 / C12): precision >= 28, 0 < min(phase, 100-phase)
+    <= 25, a dft stage with fewer than 64 taps per output phase (num_taps < 64 x max(4, L): the 256 of phase.json for L <= 4; the
+    L = 8 .. 256 post stages - 241 taps at L = 8, 481 at 16, 961 at 32 - became measurable when F1 was repaired)."""
     ph = info["q"]["phase"]
-    return bits_of(info) >= 28 and 0 < min(ph, 100 - ph) <= 25 and any(s["kind"] == "dft" and s["numTaps"] < 256 for s in info["stages"])
+    return bits_of(info) >= 28 and 0 < min(ph, 100 - ph) <= 25 and any(s["kind"] == "dft" and s["numTaps"] < 64 * max(4, s["L"]) for s in info["stages"])
 
 
 def _coprime_pairs(n):
@@ -958,7 +971,8 @@ def report_f1(ctx, f1_seen, probe, pid):
     the probe as the failing input.  Non-linear members: up to 4 are probed, KNOWN-FINDING when the misbehaviour shows."""
     lin = [r for r in f1_seen if r.get("f1_linear")]
     non = [r for r in f1_seen if not r.get("f1_linear")][:4]
-    non.append({"cfg": mkcfg(1, 32, 4 | 0x10, 0, simd=1)})       # a fixed member with the F1 signature (HQ, intermediate phase, post stage L = 8)
+    if _f1_listed_known():
+        non.append({"cfg": mkcfg(1, 32, 4 | 0x10, 0, simd=1)})   # a fixed member with the F1 signature (HQ, intermediate phase, post stage L = 8)
     ctx.count("f1_signature_configurations_set_aside", len(f1_seen))
     ctx.count("f1_signature_with_linear_phase", len(lin))
     res = pool_map(probe, [r["cfg"] for r in lin[:12] + non])
